@@ -1,4 +1,5 @@
 import RexModel.Lifecycle
+import RexModel.Trigger
 
 /-! # C05 — graph lifecycle calls always return and episodes are isolated
 
@@ -128,5 +129,136 @@ theorem prev_episode_filtered (msgEps nodeEps : Int) (h : msgEps ≠ nodeEps) :
 theorem no_task_after_flip : node_submit_allowed 5 false = false ∧ node_submit_allowed 0 false = false ∧
     conn_submit_allowed 5 false = false ∧ conn_submit_allowed 0 false = false ∧
     node_submit_allowed 5 true = true ∧ conn_submit_allowed 5 true = true := by decide
+
+/-! ## No lost wake-up between the connection handlers
+
+`run()`, `step()` and `reset()` return when the dataflow reaches the next supervisor observation. The handlers of a connection run
+only when called; the three that serve a queue of expectations (`push_selection`: expected message counts against arrived messages;
+`push_ts_max`: expected timestamp counts against arrived timestamps; `push_expected_nonblocking`: step start times against arrived
+timestamps) must not be left ready with nobody to call them. The facts about the source (who calls the handler after appending, and
+that the handler checks again after serving) are regenerated on every run. -/
+
+open Rex.Trigger
+
+/-- the trigger-discipline facts of the current source -/
+theorem source_triggers :
+    selection_rechecks = true ∧ ts_max_rechecks = true ∧ expected_nonblocking_rechecks = true ∧ expected_blocking_triggers = true ∧
+    ts_input_triggers = true ∧ zip_triggers_selection = true ∧ next_step_triggers_expected_nonblocking = true ∧
+    zip_called_after_delay = true ∧ zip_called_after_msg = true ∧ step_called_after_grouped = true ∧ step_called_after_start = true := by decide
+
+/-- what happens to the selection queue of a connection -/
+inductive SelEv | expectedByNonblocking (n : Nat) | expectedByBlocking (n : Nat) | message | handlerCall
+
+/-- … with "is the append followed by a call of `push_selection`" read off the source -/
+def SelEv.toEv : SelEv → Ev Nat Nat
+  | .expectedByNonblocking n => .addExp n expected_nonblocking_rechecks
+  | .expectedByBlocking n => .addExp n expected_blocking_triggers
+  | .message => .arrive (· + 1) zip_triggers_selection
+  | .handlerCall => .handle
+
+theorem sel_allCall (evs : List SelEv) : AllCall (evs.map SelEv.toEv) := by
+  induction evs with
+  | nil => trivial
+  | cons e evs ih => cases e <;> simp only [List.map_cons, SelEv.toEv, AllCall] <;> first | exact ⟨by decide, ih⟩ | exact ih
+
+/-- **`push_selection` is never left ready without a pending call**: whatever the order in which expectations are queued, messages
+arrive and calls run — every interleaving of the node, connection and sender threads. -/
+theorem C05_selection_no_lost_wakeup (evs : List SelEv) :
+    let q := run (fun (n have_ : Nat) => decide (n ≤ have_)) (fun n have_ => have_ - n) selection_rechecks 0 (evs.map SelEv.toEv)
+    Ready (fun (n have_ : Nat) => decide (n ≤ have_)) q → 0 < q.trig := by
+  have h : selection_rechecks = true := source_triggers.1
+  rw [h]
+  exact no_lost_wakeup _ _ 0 _ (sel_allCall evs)
+
+/-- what happens to the blocking-arrival queue of a connection (`push_ts_max`) -/
+inductive TsMaxEv | expected (n : Nat) | timestamp | handlerCall
+
+def TsMaxEv.toEv : TsMaxEv → Ev Nat Nat
+  | .expected n => .addExp n expected_blocking_triggers
+  | .timestamp => .arrive (· + 1) ts_input_triggers
+  | .handlerCall => .handle
+
+theorem tsmax_allCall (evs : List TsMaxEv) : AllCall (evs.map TsMaxEv.toEv) := by
+  induction evs with
+  | nil => trivial
+  | cons e evs ih => cases e <;> simp only [List.map_cons, TsMaxEv.toEv, AllCall] <;> first | exact ⟨by decide, ih⟩ | exact ih
+
+/-- **`push_ts_max` is never left ready without a pending call.** -/
+theorem C05_ts_max_no_lost_wakeup (evs : List TsMaxEv) :
+    let q := run (fun (n have_ : Nat) => decide (n ≤ have_)) (fun n have_ => have_ - n) ts_max_rechecks 0 (evs.map TsMaxEv.toEv)
+    Ready (fun (n have_ : Nat) => decide (n ≤ have_)) q → 0 < q.trig := by
+  have h : ts_max_rechecks = true := source_triggers.2.1
+  rw [h]
+  exact no_lost_wakeup _ _ 0 _ (tsmax_allCall evs)
+
+/-- what happens to the next-step queue of a non-blocking connection (`push_expected_nonblocking`): step start times are queued by
+the node, arrival timestamps by the sender; a step is ready once some arrival lies in its future (any test `ready`, any way
+`consume` of dropping the consumed timestamps) -/
+inductive ExpNbEv (T : Type) | nextStep (ts : T) | timestamp (ts : T) | handlerCall
+
+def ExpNbEv.toEv {T : Type} : ExpNbEv T → Ev T (List T)
+  | .nextStep t => .addExp t next_step_triggers_expected_nonblocking
+  | .timestamp t => .arrive (· ++ [t]) ts_input_triggers
+  | .handlerCall => .handle
+
+theorem expnb_allCall {T : Type} (evs : List (ExpNbEv T)) : AllCall (evs.map ExpNbEv.toEv) := by
+  induction evs with
+  | nil => trivial
+  | cons e evs ih => cases e <;> simp only [List.map_cons, ExpNbEv.toEv, AllCall] <;> first | exact ⟨by decide, ih⟩ | exact ih
+
+/-- **`push_expected_nonblocking` is never left ready without a pending call.** -/
+theorem C05_expected_nonblocking_no_lost_wakeup {T : Type} (ready : T → List T → Bool) (consume : T → List T → List T)
+    (evs : List (ExpNbEv T)) :
+    let q := run ready consume expected_nonblocking_rechecks [] (evs.map ExpNbEv.toEv)
+    Ready ready q → 0 < q.trig := by
+  have h : expected_nonblocking_rechecks = true := source_triggers.2.2.1
+  rw [h]
+  exact no_lost_wakeup _ _ [] _ (expnb_allCall evs)
+
+/-- what happens to `push_zip` (joins a message with its sampled delay): source 0 = delays queued by `push_ts_input`, source 1 =
+messages queued by `push_input` -/
+inductive ZipEv | delay | msg | handlerCall
+
+def ZipEv.toEv : ZipEv → UEv
+  | .delay => .append 0 zip_called_after_delay
+  | .msg => .append 1 zip_called_after_msg
+  | .handlerCall => .handle
+
+theorem zip_allCall (evs : List ZipEv) : UAllCall (evs.map ZipEv.toEv) := by
+  induction evs with
+  | nil => trivial
+  | cons e evs ih => cases e <;> simp only [List.map_cons, ZipEv.toEv, UAllCall] <;> first | exact ⟨by decide, ih⟩ | exact ih
+
+/-- **`push_zip` is never left ready (a message and a delay both waiting) without a pending call.** -/
+theorem C05_zip_no_lost_wakeup (evs : List ZipEv) :
+    (∀ i, i < 2 → 0 < (urun 2 (evs.map ZipEv.toEv)).counts i) → 0 < (urun 2 (evs.map ZipEv.toEv)).trig :=
+  unit_no_lost_wakeup 2 (by decide) _ (zip_allCall evs)
+
+/-- what happens to `push_step` of a node with `m` inputs: source `i < m` = the grouped messages of input `i` (queued by its
+`push_selection`), source `m` = the computed start time (queued by `push_phase_shift`) -/
+inductive StepEv | grouped (i : Nat) | start (m : Nat) | handlerCall
+
+def StepEv.toEv : StepEv → UEv
+  | .grouped i => .append i step_called_after_grouped
+  | .start m => .append m step_called_after_start
+  | .handlerCall => .handle
+
+theorem step_allCall (evs : List StepEv) : UAllCall (evs.map StepEv.toEv) := by
+  induction evs with
+  | nil => trivial
+  | cons e evs ih => cases e <;> simp only [List.map_cons, StepEv.toEv, UAllCall] <;> first | exact ⟨by decide, ih⟩ | exact ih
+
+/-- **`push_step` is never left ready (grouped messages of every input and a start time waiting) without a pending call.** -/
+theorem C05_push_step_no_lost_wakeup (m : Nat) (evs : List StepEv) :
+    (∀ i, i < m + 1 → 0 < (urun (m + 1) (evs.map StepEv.toEv)).counts i) → 0 < (urun (m + 1) (evs.map StepEv.toEv)).trig :=
+  unit_no_lost_wakeup (m + 1) (Nat.succ_pos m) _ (step_allCall evs)
+
+/-- **before the repair** (one check per event) the selection handler could be left ready with no call pending — the schedule of the
+stall observed on the real threads: two expectations (one message, then none) queued before the message arrives. -/
+theorem C05_oneshot_selection_stalls :
+    let q := run (fun (n have_ : Nat) => decide (n ≤ have_)) (fun n have_ => have_ - n) false 0
+      [.addExp 1 true, .addExp 0 true, .handle, .handle, .arrive (· + 1) true, .handle]
+    q.trig = 0 ∧ Ready (fun (n have_ : Nat) => decide (n ≤ have_)) q :=
+  ⟨oneshot_lost_wakeup.2.2.1, oneshot_lost_wakeup.2.2.2⟩
 
 end Rex.C05
